@@ -8,7 +8,7 @@ STEP_BOUNDS = {
     "group_step": "own status {required, optional, forbidden, undetermined} x parent {none, required, optional, forbidden} x 0-2 sub-groups x 0-2 segments x flag x child yields",
     "segment_step": "own status x parent x 0-3 data elements x flag x yields",
     "deep_step": "0-3 root groups x flag x yields",
-    "dispatch_step": "free text / value pool x segment status x flag",
+    "dispatch_step": "free text / value pool x segment status x flag x 7 entered values (absent, empty, padded, blank, other case)",
     "freetext_step": "19 evaluation classes x segment status {none, required, optional} x flag x input {None, '', text} x format result",
     "valuepool_step": "pool size 1-3 x entry outcome {fulfilled, unfulfilled, undetermined, invalid}^n x segment status x 8 entered inputs (absent, empty, each qualifier, foreign, truncated, joined)",
 }
@@ -21,20 +21,32 @@ def jobs(mode: str, tier: str, steps, trees=(0, 1, 2, 3)) -> List[Dict]:
             for n in (1, 2, 3):
                 for seg in range(3):
                     for c0 in (range(4) if n == 3 else (-1,)):
-                        out.append({"fn": fn, "module": "vf.harness.val_harness", "globals": {"MODE": mode, "FIXN": n, "FIXSEG": seg, "FIXC0": c0}, "timeout": 900 if n == 3 else 600, "bound": STEP_BOUNDS[fn]})
+                        out.append({"fn": fn, "module": "vf.harness.val_harness", "globals": {"MODE": mode, "FIXN": n, "FIXSEG": seg, "FIXC0": c0, "SAME02": 0}, "timeout": 900 if n == 3 else 600, "bound": STEP_BOUNDS[fn]})
+                    if n == 3 and mode == "C17" and seg < 2:
+                        out.append({"fn": fn, "module": "vf.harness.val_harness", "globals": {"MODE": mode, "FIXN": 3, "FIXSEG": seg, "FIXC0": -1, "SAME02": 1}, "timeout": 900, "bound":     "pool of 3 whose first and last entry share one expression string (outcome classes of entries 0/1 symbolic) x 8 inputs"})
         elif fn == "freetext_step":
             for seg in range(3):
                 out.append({"fn": fn, "module": "vf.harness.val_harness", "globals": {"MODE": mode, "FIXSEG": seg}, "timeout": 900, "bound": STEP_BOUNDS[fn]})
         elif fn == "group_step":
             for own in range(4):
-                out.append({"fn": fn, "module": "vf.harness.val_harness", "globals": {"MODE": mode, "FIXOWN": own}, "timeout": 900, "bound": STEP_BOUNDS[fn]})
+                out.append({"fn": fn, "module": "vf.harness.val_harness", "globals": {"MODE": mode, "FIXOWN": own, "WIDE": None}, "timeout": 900, "bound": STEP_BOUNDS[fn]})
+            if mode == "C13":
+                for wide in ((3, 10), (0, 13), (13, 0)) + (((12, 13),) if tier == "thorough" else ()):
+                    out.append({"fn": fn, "module": "vf.harness.val_harness", "globals": {"MODE": mode, "FIXOWN": -1, "WIDE": wide}, "timeout": 900, "bound": f"wide node: {wide[0]} sub-groups and {wide[1]} segments x own status x parent x flag x child yields"})
         else:
-            out.append({"fn": fn, "module": "vf.harness.val_harness", "globals": {"MODE": mode, "FIXOWN": -1, "FIXSEG": -1, "FIXN": -1}, "timeout": 600, "bound": STEP_BOUNDS[fn]})
+            out.append({"fn": fn, "module": "vf.harness.val_harness", "globals": {"MODE": mode, "FIXOWN": -1, "FIXSEG": -1, "FIXN": -1, "WIDE": None}, "timeout": 600, "bound": STEP_BOUNDS[fn]})
+            if mode == "C13" and fn in ("segment_step", "deep_step"):
+                for wide in (14, 17) + ((25,) if tier == "thorough" else ()):
+                    out.append({"fn": fn, "module": "vf.harness.val_harness", "globals": {"MODE": mode, "FIXOWN": -1, "FIXSEG": -1, "FIXN": -1, "WIDE": wide}, "timeout": 600, "bound": f"wide node: {wide} children x own status x parent x flag x yields"})
     ninp = 4 if tier == "thorough" else (1 if mode in ("C14", "C16") else 2)
     if tier != "thorough" and mode == "C14":
         trees = tuple(t for t in trees if t in (0, 1))
     for t in trees:
         for s1 in range(9):
-            out.append({"fn": "tree_glue", "module": "vf.harness.val_glue", "globals": {"MODE": mode, "TREE": t, "NINP": ninp, "F901": -1 if tier == "thorough" else 1, "FIXS1": s1 // 3, "FIXS2": s1 % 3, "FLAG2_FREE": 1 if tier == "thorough" else 0}, "timeout": 1500, "bound": f"whole AHB tree {t} with real expressions and real evaluation x states of 3 requirement keys x flag x {ninp} input sets"})
+            out.append({"fn": "tree_glue", "module": "vf.harness.val_glue", "globals": {"MODE": mode, "TREE": t, "NINP": ninp, "F901": -1 if tier == "thorough" else 1, "FIXS1": s1 // 3, "FIXS2": s1 % 3, "FLAG2_FREE": 1 if tier == "thorough" else 0, "PRELUDE": 1 if (mode == "C14" and t == 0) else 0, "PKG1P": "[1] U [2]"}, "timeout": 1500, "bound": f"whole AHB tree {t} with real expressions and real evaluation x states of 3 requirement keys x flag x {ninp} input sets"})
+    if mode in ("C13", "C16"):
+        # tree 1 again, its package [1P] defined differently in a validation that ran just before (C16: the current definition is invalid)
+        for s1 in range(9 if tier == "thorough" else 3):
+            out.append({"fn": "tree_glue", "module": "vf.harness.val_glue", "globals": {"MODE": mode, "TREE": 1, "NINP": 1, "F901": 1, "FIXS1": s1 // 3, "FIXS2": s1 % 3, "FLAG2_FREE": 0, "PRELUDE": 1, "PKG1P": "[2] O [501]" if mode == "C16" else "[1] U [2]"}, "timeout": 1500, "bound": "AHB tree 1 validated twice in one process with two definitions of package 1P (valid / invalid); second run judged"})
     out.sort(key=lambda j: -j["timeout"])
     return out
